@@ -27,7 +27,7 @@ import numpy as np  # noqa: E402
 TOL = 1e-8
 SQ3 = np.sqrt(3.0)
 DIMS = {"sc": [2, 2, 2], "cscl": [3, 3, 3], "hcp": [2, 2, 2], "wz": [3, 3, 2], "tric": [3, 2, 2], "tetab": [3, 3, 2],
-        "nacl": [1, 1, 1], "naclg": [1, 1, 1], "bcc": [2, 2, 2], "dia": [2, 2, 2], "zb": [2, 2, 2], "rut": [2, 2, 2]}
+        "nacl": [1, 1, 1], "naclg": [1, 1, 1], "bcc": [2, 2, 2], "dia": [2, 2, 2], "zb": [2, 2, 2], "rut": [2, 2, 2], "scx": [3, 3, 3], "hcpx": [2, 2, 2]}
 
 
 def tables_from_phonopy():
